@@ -10,6 +10,8 @@ SETUP = 'src/setup.rs'
 KDF = 'src/kdf.rs'
 DHKEM = 'src/kem/dhkem.rs'
 NIST = 'src/dhkex/ecdh_nistp.rs'
+import os as _os
+BP = _os.path.join(_os.path.dirname(_os.path.abspath(__file__)), 'benign_patches') + '/'
 X25519 = 'src/dhkex/x25519.rs'
 OPMODE = 'src/op_mode.rs'
 SINGLE = 'src/single_shot.rs'
@@ -1160,4 +1162,63 @@ pub(crate) const MAX_PUBKEY_SIZE: usize = 97;""")]),
     dict(name='c04-loop-encoder-masked-shift', expect=[('C04', 'R02.3')],
          note='loop form of write_u64_be whose shift amount is masked to 5 bits: bytes 0..3 repeat bytes 4..7',
          edits=[(UTIL, '    assert_eq!(buf.len(), 8);\n    buf[0] = ((n & 0xff00000000000000) >> 56) as u8;\n    buf[1] = ((n & 0x00ff000000000000) >> 48) as u8;\n    buf[2] = ((n & 0x0000ff0000000000) >> 40) as u8;\n    buf[3] = ((n & 0x000000ff00000000) >> 32) as u8;\n    buf[4] = ((n & 0x00000000ff000000) >> 24) as u8;\n    buf[5] = ((n & 0x0000000000ff0000) >> 16) as u8;\n    buf[6] = ((n & 0x000000000000ff00) >>  8) as u8;\n    buf[7] =  (n & 0x00000000000000ff)        as u8;', '    assert_eq!(buf.len(), 8);\n    for (i, byte) in buf.iter_mut().enumerate() {\n        *byte = (n >> ((8 * (7 - i)) & 31)) as u8;\n    }')]),
+    # ------------------------------------------------------------------ DeriveKeyPair written with find_map (benign patch B4-4) + one fault
+    dict(name='c03-find-map-derive-255-attempts', expect=[('C03', 'R03.3'), ('C02', 'R02.10')], patch=BP + 'B4-4.diff',
+         note='find_map spelling of the NIST rejection loop over 0..255 (exclusive): 255 attempts instead of 256',
+         edits=[(NIST, "let keypair = (0u8..=255).find_map(|counter| {", "let keypair = (0u8..255).find_map(|counter| {")]),
+    dict(name='c03-find-map-derive-mask-after-parse', expect=[('C03', 'R03.3')], patch=BP + 'B4-4.diff',
+         note='find_map spelling in which the bitmask is applied after the candidate was parsed (P-521 candidates are almost never in range)',
+         edits=[(NIST, """                        // Apply the bitmask
+                        buf[0] &= $keygen_bitmask;
+""", ""),
+                (NIST, "                        PrivateKey::from_bytes(&buf).ok().map(|sk| {", """                        let parsed = PrivateKey::from_bytes(&buf);
+                        buf[0] &= $keygen_bitmask;
+                        parsed.ok().map(|sk| {""")]),
+    dict(name='c03-find-map-derive-counter-plus-one', expect=[('C03', 'R03.3')], patch=BP + 'B4-4.diff',
+         note='find_map spelling whose info byte is counter + 1 (wrapping): every derived key differs from RFC 9180',
+         edits=[(NIST, "&[counter]", "&[counter.wrapping_add(1)]")]),
+    # ------------------------------------------------------------------ assertions over lengths (D10 must not over-approve)
+    dict(name='c13-debug-assert-64k-bound', expect=[('C13', 'R13.3')],
+         note='a debug_assert that the parts add up to less than 64 KiB + Nt: fires for long ciphertexts in debug builds',
+         edits=[(AEAD, '        let (ciphertext, tag_slice) = ciphertext.split_at(msg_len);\n', '        let (ciphertext, tag_slice) = ciphertext.split_at(msg_len);\n        debug_assert!(ciphertext.len() + tag_slice.len() < 65536 + tag_len);\n')]),
+    dict(name='c13-assert-parts-sum-off-by-one', expect=[('C13', 'R13.3')],
+         note='an assert_eq of the two halves of split_at against msg_len + tag_len + 1: can never hold',
+         edits=[(AEAD, '        let (ciphertext, tag_slice) = ciphertext.split_at(msg_len);\n', '        let (ciphertext, tag_slice) = ciphertext.split_at(msg_len);\n        assert_eq!(ciphertext.len() + tag_slice.len(), msg_len + tag_len + 1);\n')]),
+    dict(name='c13-assert-nonempty-message', expect=[('C13', 'R13.3')],
+         note='assert!(ciphertext.len() > tag_len) before the split: an empty sealed message panics the receiver',
+         edits=[(AEAD, '        let (ciphertext, tag_slice) = ciphertext.split_at(msg_len);\n', '        assert!(ciphertext.len() > tag_len);\n        let (ciphertext, tag_slice) = ciphertext.split_at(msg_len);\n')]),
+    # ------------------------------------------------------------------ forms accepted since benign round 5, each with one fault
+    dict(name='c04-fs-zip-drops-counter', expect=[('C04', 'R04.1')],
+         note='generic-array FunctionalSequence::zip form of the nonce XOR whose closure returns the base byte only: every nonce equals the base nonce',
+         edits=[(AEAD, 'use generic_array::GenericArray;\nuse zeroize::Zeroize;', 'use generic_array::{functional::FunctionalSequence, GenericArray};\nuse zeroize::Zeroize;'), (AEAD, '    let new_nonce_iter = base_nonce\n        .0\n        .iter()\n        .zip(seq_buf.0.iter())\n        .map(|(nonce_byte, seq_byte)| nonce_byte ^ seq_byte);\n\n    // This cannot fail, as the length of AeadNonce<A> is precisely the length of Seq\n    AeadNonce(GenericArray::from_exact_iter(new_nonce_iter).unwrap())', '    let base: &GenericArray<u8, _> = &base_nonce.0;\n    AeadNonce(base.zip(&seq_buf.0, |nonce_byte, _seq_byte| *nonce_byte))')]),
+    dict(name='c04-fs-zip-or-for-xor', expect=[('C04', 'R04.1')],
+         note='FunctionalSequence::zip form with | for ^',
+         edits=[(AEAD, 'use generic_array::GenericArray;\nuse zeroize::Zeroize;', 'use generic_array::{functional::FunctionalSequence, GenericArray};\nuse zeroize::Zeroize;'), (AEAD, '    let new_nonce_iter = base_nonce\n        .0\n        .iter()\n        .zip(seq_buf.0.iter())\n        .map(|(nonce_byte, seq_byte)| nonce_byte ^ seq_byte);\n\n    // This cannot fail, as the length of AeadNonce<A> is precisely the length of Seq\n    AeadNonce(GenericArray::from_exact_iter(new_nonce_iter).unwrap())', '    let base: &GenericArray<u8, _> = &base_nonce.0;\n    AeadNonce(base.zip(&seq_buf.0, |nonce_byte, seq_byte| nonce_byte | seq_byte))')]),
+    dict(name='c02-suite-id-loop-reversed', expect=[('C02', 'R02.2')], patch=BP + 'B28-1.diff',
+         note='loop form of the suite-id writer that places the identifiers in reverse order (AEAD, KDF, KEM)',
+         edits=[(UTIL, "let start = prefix_len + 2 * i;", "let start = prefix_len + 2 * (ids.len() - 1 - i);")]),
+    dict(name='c12-encapped-key-delegates-then-patches', expect=[('C12', 'R12.6')], patch=BP + 'B25-3.diff',
+         note='EncappedKey::write_exact lets the public key write itself and then overwrites byte 0',
+         edits=[('src/kem/dhkem.rs', "                    self.0.write_exact(buf);\n", "                    self.0.write_exact(buf);\n                    buf[0] = 0x04;\n")]),
+    dict(name='c13-try-from-expect-without-guard', expect=[('C13', 'R13.3'), ('C12', 'R12.2')],
+         note='X25519 public key from_bytes: the length guard is gone and <[u8; 32]>::try_from(..).expect(..) panics on any other length',
+         edits=[(X25519, """        // Pubkeys must be 32 bytes
+        enforce_equal_len(Self::OutputSize::to_usize(), encoded.len())?;
+
+        // Copy to a fixed-size array
+        let mut arr = [0u8; 32];
+        arr.copy_from_slice(encoded);""", """        // Pubkeys must be 32 bytes
+        let arr = <[u8; 32]>::try_from(encoded).expect("pubkeys are 32 bytes");""")]),
+    dict(name='c13-loop-encoder-without-length-assert', expect=[('C13', 'R13.3'), ('C04', 'R02.3')],
+         note='loop form of write_u64_be without assert_eq!(buf.len(), 8): 7 - i underflows for longer buffers and shorter ones are partly written',
+         edits=[(UTIL, '    assert_eq!(buf.len(), 8);\n    buf[0] = ((n & 0xff00000000000000) >> 56) as u8;\n    buf[1] = ((n & 0x00ff000000000000) >> 48) as u8;\n    buf[2] = ((n & 0x0000ff0000000000) >> 40) as u8;\n    buf[3] = ((n & 0x000000ff00000000) >> 32) as u8;\n    buf[4] = ((n & 0x00000000ff000000) >> 24) as u8;\n    buf[5] = ((n & 0x0000000000ff0000) >> 16) as u8;\n    buf[6] = ((n & 0x000000000000ff00) >>  8) as u8;\n    buf[7] =  (n & 0x00000000000000ff)        as u8;', "    for (i, byte) in buf.iter_mut().enumerate() {\n        *byte = (n >> (8 * (7 - i))) as u8;\n    }")]),
+    dict(name='c04-tail-xor-shifted-by-one', expect=[('C04', 'R04.1')], patch=BP + 'B25-1.diff',
+         note='tail form of mix_nonce whose tail starts one byte early: the zip stops after 8 bytes, the counter lands one position too far left',
+         edits=[(AEAD, "let nonce_tail = &mut nonce.0[nonce_size - seq_size..];", "let nonce_tail = &mut nonce.0[nonce_size - seq_size - 1..];")]),
+    dict(name='c04-tail-xor-into-head', expect=[('C04', 'R04.1')], patch=BP + 'B25-1.diff',
+         note='tail form of mix_nonce that XORs the counter into the first 8 bytes',
+         edits=[(AEAD, "let nonce_tail = &mut nonce.0[nonce_size - seq_size..];", "let nonce_tail = &mut nonce.0[..seq_size];")]),
+    dict(name='c04-tail-xor-counter-truncated', expect=[('C04', 'R04.1')], patch=BP + 'B25-1.diff',
+         note='tail form of mix_nonce whose counter bytes come from seq.0 as u32 (nonces repeat after 2^32 messages)',
+         edits=[(AEAD, "write_u64_be(&mut seq_bytes, seq.0);", "write_u64_be(&mut seq_bytes, u64::from(seq.0 as u32));")]),
 ]
